@@ -125,7 +125,58 @@ pub fn run(args: &[String]) {
         let back = guarded(|| { let a = to_arith(&ctx, e); from_arith(&mut ctx, &a) });
         out.put(&pair_record(&format!("rt{i}"), &ctx, e, back, json!({"rule": "roundtrip", "lhs": "", "rhs": ""})));
     }
+    // equality saturation with the shipped rule set (the conditions are then evaluated by egg on e-class analysis data, not
+    // through eval_condition): every member of the root's e-class, completed with smallest sub-terms, must be equivalent
+    // to the expression the e-graph was built from
+    let nsat = flag_u(args, "--saturate", 0);
+    let (mut sat_terms, mut sat_variants) = (0u64, 0u64);
+    for i in 0..nsat {
+        let mut ctx = Context::default();
+        let syms: Vec<ExprRef> = ["a", "b", "c"].iter().map(|n| { let w = rng.random_range(1..=3); ctx.bv_symbol(n, w) }).collect();
+        fn gen_s(ctx: &mut Context, rng: &mut SmallRng, syms: &[ExprRef], d: u32) -> ExprRef {
+            if d == 0 { return *syms.choose(rng).unwrap(); }
+            let w = rng.random_range(2..=5u32);
+            let mut operand = |ctx: &mut Context, rng: &mut SmallRng, allow_const: bool| -> ExprRef {
+                if allow_const && rng.random_range(0..3) == 0 {
+                    // small constants: the multiplication / shift rules speak about 2 and about constant shift amounts
+                    let cw = rng.random_range(2..=w);
+                    let c = ctx.bit_vec_val(rng.random_range(1..=3u64).min((1u64 << cw) - 1), cw);
+                    return if cw < w { if rng.random_bool(0.5) { ctx.zero_extend(c, w - cw) } else { ctx.sign_extend(c, w - cw) } } else { c };
+                }
+                let e = gen_s(ctx, rng, syms, d - 1);
+                let ew = e.get_bv_type(ctx).unwrap();
+                if ew < w { if rng.random_bool(0.5) { ctx.zero_extend(e, w - ew) } else { ctx.sign_extend(e, w - ew) } } else if ew > w { ctx.slice(e, w - 1, 0) } else { e }
+            };
+            let (a, b) = (operand(ctx, rng, false), operand(ctx, rng, true));
+            match rng.random_range(0..4) { 0 => ctx.add(a, b), 1 => ctx.mul(a, b), 2 => ctx.shift_left(a, b), _ => ctx.add(b, a) }
+        }
+        let d = rng.random_range(1..=2);
+        let e = gen_s(&mut ctx, &mut rng, &syms, d);
+        let mut has_slice = false;
+        let mut todo = vec![e];
+        while let Some(x) = todo.pop() { if matches!(ctx[x], Expr::BVSlice { .. }) { has_slice = true; } ctx[x].for_each_child(|c| todo.push(*c)); }
+        if has_slice { continue; }
+        let variants = guarded(|| {
+            let a = to_arith(&ctx, e);
+            let runner = egg::Runner::<Arith, WidthConstantFold>::default().with_iter_limit(4).with_node_limit(4000)
+                .with_time_limit(std::time::Duration::from_secs(600)).with_expr(&a).run(&create_egg_rewrites());
+            let root = runner.egraph.find(runner.roots[0]);
+            let ext = egg::Extractor::new(&runner.egraph, egg::AstSize);
+            let mut vs: Vec<RecExpr<Arith>> = vec![];
+            for node in runner.egraph[root].nodes.iter().take(8) {
+                vs.push(node.join_recexprs(|id| ext.find_best(id).1));
+            }
+            vs
+        });
+        let variants = match variants { Ok(v) => v, Err(_) => continue };
+        sat_terms += 1;
+        for (k, v) in variants.iter().enumerate() {
+            let back = guarded(|| from_arith(&mut ctx, v));
+            sat_variants += 1;
+            out.put(&pair_record(&format!("sat{i}v{k}"), &ctx, e, back, json!({"rule": "saturate", "lhs": "", "rhs": format!("{}", v)})));
+        }
+    }
     let n = out.n;
     out.finish();
-    println!("{}", json!({"records": n, "rules": J::Object(stats)}));
+    println!("{}", json!({"records": n, "rules": J::Object(stats), "saturated_terms": sat_terms, "saturation_variants": sat_variants}));
 }
